@@ -393,7 +393,8 @@ fn bulk_op(rng: &mut Rng, ctx: &Ctx, fam: &Fam, kind: &str, n: usize, with_edges
             *q = (a, b);
         }
     }
-    else if rng.chance(2) {
+    else if rng.chance(3) && !matches!(fam.name.as_str(), "grid" | "line" | "circle" | "offset" | "tiny") {
+        // (not under the integer families: the model comparisons assume small integer coordinates there)
         // a few hundred points in tight clusters (grids of adjacent floats around a few centres):
         // the sweep skips many of them and inserts them one by one afterwards, with more than 256
         // vertices the hierarchy hint generator has several layers by then
